@@ -8,6 +8,7 @@ import (
 	"os"
 	"sort"
 	"strings"
+	"sync"
 
 	"golang.org/x/tools/go/ssa"
 	"verif/engine/smt"
@@ -421,6 +422,35 @@ type Machine struct {
 	Cfg   *Config
 	Sizes types.Sizes
 	proto *interpreter
+
+	baseOnce sync.Once
+	base     map[*ssa.Global]*value // initialised globals of non-acra packages, shared read-only by all paths
+	BaseErr  string
+}
+
+// buildBase runs the package initialisers once and keeps the globals of every non-acra package
+// (std tables, third-party registries). They are treated as immutable after initialisation.
+func (m *Machine) buildBase(pkg *ssa.Package) {
+	i := m.newInterp(nil)
+	defer func() {
+		if r := recover(); r != nil {
+			m.BaseErr = fmt.Sprintf("init failed: %v", r)
+		}
+	}()
+	i.inInit++
+	call(i, nil, token.NoPos, pkg.Func("init"), nil)
+	base := map[*ssa.Global]*value{}
+	for g, cell := range i.globals {
+		if g.Pkg == nil {
+			continue
+		}
+		p := g.Pkg.Pkg.Path()
+		if strings.HasPrefix(p, "github.com/cossacklabs/") {
+			continue
+		}
+		base[g] = cell
+	}
+	m.base = base
 }
 
 func NewMachine(prog *ssa.Program, cfg *Config) *Machine {
@@ -444,6 +474,9 @@ func (m *Machine) newInterp(ex *Explorer) *interpreter {
 		runtimeErrorString: p.runtimeErrorString, ex: ex, cfg: m.Cfg,
 	}
 	i.osArgs = []value{"verif"}
+	for g, c := range m.base {
+		i.globals[g] = c
+	}
 	return i
 }
 
@@ -482,6 +515,7 @@ func classifyPanic(r interface{}) (kind, msg string) {
 // RunHarness runs pkg's initialisers and then fn once, under ex (nil = concrete).
 // A panic escaping fn is re-raised as uncaughtPanic (symbolic) or returned (concrete).
 func (m *Machine) RunHarness(ex *Explorer, pkg *ssa.Package, fn *ssa.Function) (panicMsg string) {
+	m.baseOnce.Do(func() { m.buildBase(pkg) })
 	i := m.newInterp(ex)
 	defer func() {
 		r := recover()
@@ -493,7 +527,10 @@ func (m *Machine) RunHarness(ex *Explorer, pkg *ssa.Package, fn *ssa.Function) (
 		}
 		kind, msg := classifyPanic(r)
 		site := i.panicSite
-		if !i.panicActive {
+		if !i.panicActive || site == "" {
+			site = i.panicInner
+		}
+		if site == "" {
 			site = "?"
 		}
 		if ex != nil {
@@ -507,4 +544,19 @@ func (m *Machine) RunHarness(ex *Explorer, pkg *ssa.Package, fn *ssa.Function) (
 	i.panicActive = false
 	call(i, nil, token.NoPos, fn, nil)
 	return ""
+}
+
+func isAcraFn(fn *ssa.Function) bool {
+	for fn.Parent() != nil {
+		fn = fn.Parent()
+	}
+	if fn.Pkg == nil {
+		if o := fn.Origin(); o != nil && o.Pkg != nil {
+			fn = o
+		} else {
+			return false
+		}
+	}
+	p := fn.Pkg.Pkg.Path()
+	return strings.HasPrefix(p, "github.com/cossacklabs/acra") && !strings.Contains(p, "/zz_verif") && !strings.HasPrefix(fn.Name(), "Verif") && !strings.HasPrefix(fn.Name(), "verif")
 }
